@@ -165,10 +165,22 @@ struct RingPos {uint32 cap, head, size; bool inl, wrapped, allocated;};
 struct Coverage
 {
    std::set<uint64> tuples;                 // (cap, head, size, op)
-   std::map<uint32, long> cells;            // (cap in {3,4,8}, head, group[, wrapped]) -> calls
+   std::map<uint32, long> cells;            // (cap in caps, head, group[, wrapped]) -> calls
    long wrappedCalls, calls, grows, inlineCalls, heapCalls;
    std::set<int> opsOnWrapped, opsSeen;
-   Coverage() : wrappedCalls(0), calls(0), grows(0), inlineCalls(0), heapCalls(0) {}
+   // the capacities the classes are about are MEASURED on the library as compiled (they depend on SMALL_QUEUE_SIZE, sizeof(ItemType) and the growth policy):
+   // caps[0] = the inline buffer, caps[1] = what EnsureSize(inline+1) allocates, caps[2] = what adding inline+1 items one by one grows to
+   std::vector<uint32> caps; uint32 inlineCap;
+   Coverage() : wrappedCalls(0), calls(0), grows(0), inlineCalls(0), heapCalls(0), inlineCap(0) {}
+   bool IsCap(uint32 c) const {for (size_t i=0; i<caps.size(); i++) if (caps[i] == c) return true; return false;}
+   // the head offsets wanted for a capacity: all of them, or (large capacities) the ones next to the two ends and in the middle
+   static std::vector<uint32> HeadsOf(uint32 cap)
+   {
+      std::vector<uint32> h;
+      if (cap <= 12) {for (uint32 i=0; i<cap; i++) h.push_back(i);}
+      else {const uint32 m = cap/2; const uint32 pick[] = {0, 1, 2, 3, m-1, m, m+1, cap-3, cap-2, cap-1}; for (int i=0; i<10; i++) h.push_back(pick[i]);}
+      return h;
+   }
    static uint32 Cell(uint32 cap, uint32 head, int group, bool wrapped) {return (cap<<16)|(head<<8)|((uint32)group<<1)|(wrapped?1:0);}
    void Note(const RingPos & before, uint32 capAfter, int op)
    {
@@ -178,7 +190,7 @@ struct Coverage
       if ((before.cap < 64)&&(before.size < 64)) tuples.insert((((uint64) before.cap)<<40)|(((uint64) before.head)<<24)|(((uint64) before.size)<<8)|(uint64) op);
       const bool grew = (capAfter > before.cap)&&(before.size > 0);
       if (grew) grows++;
-      if ((before.size > 0)&&((before.cap == 3)||(before.cap == 4)||(before.cap == 8))) {
+      if ((before.size > 0)&&(before.cap < 250)&&(IsCap(before.cap))) {
          cells[Cell(before.cap, before.head, GroupOf(op), false)]++;
          if (before.wrapped) cells[Cell(before.cap, before.head, GroupOf(op), true)]++;
          if (grew) cells[Cell(before.cap, before.head, G_GROW, false)]++;
@@ -187,6 +199,7 @@ struct Coverage
    void Merge(const Coverage & c)
    {
       tuples.insert(c.tuples.begin(), c.tuples.end()); for (std::map<uint32, long>::const_iterator it = c.cells.begin(); it != c.cells.end(); ++it) cells[it->first] += it->second;
+      if (caps.empty()) {caps = c.caps; inlineCap = c.inlineCap;}
       wrappedCalls += c.wrappedCalls; calls += c.calls; grows += c.grows; inlineCalls += c.inlineCalls; heapCalls += c.heapCalls;
       opsOnWrapped.insert(c.opsOnWrapped.begin(), c.opsOnWrapped.end()); opsSeen.insert(c.opsSeen.begin(), c.opsSeen.end());
    }
@@ -196,20 +209,25 @@ struct Coverage
       sum.set("calls", mj::Value::Int(calls)).set("ring_tuples", mj::Value::Int((int64_t) tuples.size())).set("calls_on_wrapped_ring", mj::Value::Int(wrappedCalls))
          .set("distinct_ops", mj::Value::Int((int64_t) opsSeen.size())).set("distinct_ops_on_wrapped_ring", mj::Value::Int((int64_t) opsOnWrapped.size()))
          .set("reallocations_growing", mj::Value::Int(grows)).set("calls_on_inline_buffer", mj::Value::Int(inlineCalls)).set("calls_on_heap_array", mj::Value::Int(heapCalls));
-      // the classes the property worries about: every head offset of the capacities 3, 4, 8 met by a multi-item insert, by a growing reallocation,
-      // by Normalize (on a wrapped ring where the offset allows one), ...
-      const uint32 caps[] = {3, 4, 8}; mj::Value missing = mj::Value::Arr(); long want = 0, hit = 0;
-      mj::Value table = mj::Value::Obj();
-      for (int ci=0; ci<3; ci++) for (uint32 h=0; h<caps[ci]; h++) {
-         mj::Value row = mj::Value::Obj();
-         for (int g=0; g<G_OTHER; g++) {
-            const bool needWrapped = (g == G_NORMALIZE)&&(h > 0);
-            const long n = Get(caps[ci], h, g, needWrapped);
-            row.set(GROUPNAME[g], mj::Value::Int(n));
-            want++; if (n > 0) hit++; else {char b[64]; snprintf(b, sizeof(b), "cap%u/head%u/%s", caps[ci], h, GROUPNAME[g]); missing.push(mj::Value::Str(b));}
+      // the classes the property worries about: every head offset of the inline capacity and of the two first heap capacities met by a multi-item insert,
+      // by a growing reallocation, by Normalize (on a wrapped ring where the offset allows one), ...
+      mj::Value missing = mj::Value::Arr(); long want = 0, hit = 0;
+      mj::Value table = mj::Value::Obj(); mj::Value cj = mj::Value::Arr();
+      for (size_t ci=0; ci<caps.size(); ci++) {
+         cj.push(mj::Value::Int(caps[ci]));
+         const std::vector<uint32> heads = HeadsOf(caps[ci]);
+         for (size_t hi=0; hi<heads.size(); hi++) {
+            const uint32 h = heads[hi]; mj::Value row = mj::Value::Obj();
+            for (int g=0; g<G_OTHER; g++) {
+               const bool needWrapped = (g == G_NORMALIZE)&&(h > 0);
+               const long n = Get(caps[ci], h, g, needWrapped);
+               row.set(GROUPNAME[g], mj::Value::Int(n));
+               want++; if (n > 0) hit++; else {char b[64]; snprintf(b, sizeof(b), "cap%u/head%u/%s", caps[ci], h, GROUPNAME[g]); missing.push(mj::Value::Str(b));}
+            }
+            char k[32]; snprintf(k, sizeof(k), "cap%u_head%u", caps[ci], h); table.set(k, row);
          }
-         char k[32]; snprintf(k, sizeof(k), "cap%u_head%u", caps[ci], h); table.set(k, row);
       }
+      sum.set("inline_capacity", mj::Value::Int(inlineCap)).set("ring_capacities", cj);
       sum.set("ring_classes_wanted", mj::Value::Int(want)).set("ring_classes_hit", mj::Value::Int(hit)).set("ring_classes_missing", missing).set("ring_classes", table);
    }
 };
@@ -230,13 +248,21 @@ template<class T> struct Subject
    {
       switch(startConfig & 3) {
          case 0: q = new Q; break;                                                                      // nothing allocated yet
-         case 1: q = new Q(PreallocatedItemSlotsCount(4)); break;                                        // heap array of 4
+         case 1: q = new Q(PreallocatedItemSlotsCount(InlineCap()+1)); break;                            // the smallest heap array
          case 2: q = new Q; (void) q->AddTail(I::Make(7)); (void) q->AddTail(I::Make(8)); (void) q->RemoveHead(); (void) q->RemoveHead(); break;   // inline buffer, used before
-         default: q = new Q(PreallocatedItemSlotsCount(8)); break;                                       // heap array of 8
+         default: q = new Q(PreallocatedItemSlotsCount(2*(InlineCap()+1))); break;                       // a larger heap array
       }
    }
    ~Subject() {delete q;}
 
+   // measured, not assumed: the capacity of the inline buffer, of the array EnsureSize(inline+1) allocates, of the array that adding inline+1 items grows to
+   static uint32 InlineCap() {static uint32 c = 0; if (c == 0) {Q x; (void) x.AddTail(I::Make(1)); c = x.GetNumAllocatedItemSlots();} return c;}
+   static void MeasureCaps(Coverage & cov)
+   {
+      const uint32 s = InlineCap(); cov.inlineCap = s; cov.caps.clear(); cov.caps.push_back(s);
+      {Q x; (void) x.EnsureSize(s+1); const uint32 c = x.GetNumAllocatedItemSlots(); if ((!cov.IsCap(c))&&(c < 250)) cov.caps.push_back(c);}
+      {Q x; for (uint32 i=0; i<=s; i++) (void) x.AddTail(I::Make(1)); const uint32 c = x.GetNumAllocatedItemSlots(); if ((!cov.IsCap(c))&&(c < 250)) cov.caps.push_back(c);}
+   }
    static bool IsInline(const Q & x) {const char * r = (const char *) x.GetRawArrayPointer(); const char * o = (const char *) &x; return (r != NULL)&&(r >= o)&&(r < o+sizeof(Q));}
    static RingPos PosOf(const Q & x)
    {
@@ -550,6 +576,7 @@ static int Replay(const char * inFile, const char * outFile, const char * onlyTy
    FILE * in = fopen(inFile, "r"); FILE * out = fopen(outFile, "w");
    if ((!in)||(!out)) {fprintf(stderr, "cannot open files\n"); return 2;}
    std::string line; long nb = 0; ReplayTotals tot[3]; Coverage cov[3];
+   Subject<int>::MeasureCaps(cov[0]); Subject<String>::MeasureCaps(cov[1]); Subject<Tok>::MeasureCaps(cov[2]);
    while (mj::ReadLine(in, line)) {
       mj::Value beh; if (!mj::Parse(line, beh)) {fprintf(stderr, "bad json\n"); return 2;}
       nb++;
@@ -559,7 +586,7 @@ static int Replay(const char * inFile, const char * outFile, const char * onlyTy
          if ((!onlyType)||(!strcmp(onlyType, "Tok")))    ReplayOne<Tok>(beh, sc, out, tot[2], cov[2]);
       }
    }
-   const char * names[] = {"int", "String", "Tok"}; Coverage all; mj::Value sum = mj::Value::Obj(); long runs = 0, followed = 0, violated = 0, known = 0, steps = 0, cutShort = 0;
+   const char * names[] = {"int", "String", "Tok"}; Coverage all; for (int i=0; i<3; i++) if ((!onlyType)||(!strcmp(onlyType, names[i]))) {all.caps = cov[i].caps; all.inlineCap = cov[i].inlineCap; break;} mj::Value sum = mj::Value::Obj(); long runs = 0, followed = 0, violated = 0, known = 0, steps = 0, cutShort = 0;
    mj::Value per = mj::Value::Obj();
    for (int i=0; i<3; i++) {
       all.Merge(cov[i]); runs += tot[i].runs; followed += tot[i].followed; violated += tot[i].violated; known += tot[i].known; steps += tot[i].steps; cutShort += tot[i].cutShort;
@@ -582,7 +609,7 @@ template<class T> struct RandomDriver
    Rng rng; FILE * trace; FILE * out; Coverage cov; long lines, runsDone, violated, known, curRun, curStep; Sub * sub; IV cur; bool stop;
    static const int MAXV = 5;
 
-   RandomDriver(uint64 seed, FILE * t, FILE * o) : rng(seed), trace(t), out(o), lines(0), runsDone(0), violated(0), known(0), curRun(0), curStep(0), sub(NULL), stop(false) {}
+   RandomDriver(uint64 seed, FILE * t, FILE * o) : rng(seed), trace(t), out(o), lines(0), runsDone(0), violated(0), known(0), curRun(0), curStep(0), sub(NULL), stop(false), wantCursor(0) {Sub::MeasureCaps(cov); PlanWants();}
 
    int V() {return 1+(int) rng.Below(MAXV);}
    int V0() {return rng.Chance(15) ? 0 : V();}
@@ -737,61 +764,97 @@ template<class T> struct RandomDriver
       if (x < addPct) RandomAdd(); else if (x < addPct+((n < 18) ? 22 : 50)) RandomRemove(); else RandomOther();
    }
 
-   // the call a ring episode was arranged for
-   void TargetCall()
+   // the call a ring episode was arranged for: one of the group wanted
+   void TargetCall(int group)
    {
-      const IV src = Src(6); const int n = (int) src.size();
-      switch(rng.Below(24)) {
-         case 0: case 1: RandomMulti(); break;
-         case 2: Do(OP_InsertItemsAt, 1+(int) rng.Below((uint32) (Size() > 1 ? Size()-1 : 1)), 0, NOLIMIT, 0, src); break;     // into the middle
-         case 3: Do(OP_AddTailMulti, 0, NOLIMIT, 0, 0, src); break;
-         case 4: Do(OP_AddHeadMulti, 0, NOLIMIT, 0, 0, src); break;
-         case 5: case 6: case 7: Do(OP_Normalize); break;
-         case 8: {const RingPos p = Pos(); for (uint32 i=p.size; i<=p.cap; i++) Do(rng.Chance(50) ? OP_AddTail : OP_AddHead, 0, 0, 0, V());} break;    // fill up and overflow: a growing reallocation
-         case 9: Do(OP_EnsureSize, (int) Pos().cap+1+(int) rng.Below(4)); break;
-         case 10: Do(OP_EnsureSizeSet, (int) Pos().cap+1+(int) rng.Below(3)); break;
-         case 11: Do(OP_EnsureSizeSet, (int) rng.Below(Pos().cap+1)); break;
-         case 12: Do(OP_RemoveItemAt, Size() ? ValidIdx() : 0); break;
-         case 13: Do(OP_InsertItemAt, Idx(), 0, 0, V()); break;
-         case 14: Do(OP_Sort, 0, NOLIMIT); break;
-         case 15: Do(OP_Reverse, 0, NOLIMIT); break;
-         case 16: Do(OP_RemoveAll, 0, 0, 0, V0()); break;
-         case 17: Do(OP_SwapContents, 0, 0, 0, 0, src); break;
-         case 18: Do(rng.Chance(50) ? OP_CopyCtor : OP_MoveCtor); break;
-         case 19: Do(OP_RemoveHeadMulti, 1+(int) rng.Below(3)); break;
-         case 20: Do(OP_RemoveTailMulti, 1+(int) rng.Below(3)); break;
-         case 21: if (rng.Chance(50)) Do(OP_ShrinkToFit, (int) rng.Below(2)); else Do(rng.Chance(50) ? OP_EnsureSizeX : OP_EnsureSizeSetX, (int) rng.Below((uint32) Size()+2), (int) rng.Below(2), 1); break;
-         case 22: Do(OP_InsertItemsAtSelf, rng.Chance(30) ? 0 : Idx(), 0, n ? n : 1); break;
-         default: Do(OP_RemoveDup); break;
+      const IV src = Src(6); const int n = (int) src.size(); const RingPos p = Pos();
+      switch(group) {
+         case G_MULTI: switch(rng.Below(6)) {
+            case 0: case 1: RandomMulti(); break;
+            case 2: Do(OP_InsertItemsAt, 1+(int) rng.Below((uint32) (Size() > 1 ? Size()-1 : 1)), 0, NOLIMIT, 0, src); break;     // into the middle
+            case 3: Do(OP_AddTailMulti, 0, NOLIMIT, 0, 0, src); break;
+            case 4: Do(OP_AddHeadMulti, 0, NOLIMIT, 0, 0, src); break;
+            default: Do(OP_InsertItemsAtSelf, rng.Chance(30) ? 0 : Idx(), 0, n ? n : 1); break;
+         } break;
+         case G_GROW: switch(rng.Below(4)) {       // a growing reallocation
+            case 0: for (uint32 i=p.size; (i<=p.cap)&&(!stop); i++) Do(OP_AddTail, 0, 0, 0, V()); break;                           // fill up and overflow
+            case 1: Do(OP_EnsureSize, (int) p.cap+1+(int) rng.Below(4)); break;
+            case 2: Do(OP_EnsureSizeSet, (int) p.cap+1+(int) rng.Below(3)); break;
+            default: {IV more; const uint32 len = p.cap-p.size+1+rng.Below(2); for (uint32 i=0; (i<len)&&(i<60); i++) more.push_back(V0()); Do(rng.Chance(50) ? OP_AddTailMulti : OP_AddHeadMulti, 0, NOLIMIT, 0, 0, more);} break;
+         } break;
+         case G_NORMALIZE: Do(OP_Normalize); break;
+         case G_REMOVEAT: switch(rng.Below(4)) {
+            case 0: Do(OP_RemoveItemAt, Size() ? ValidIdx() : 0); break;
+            case 1: Do(OP_RemoveItemAtRet, Size() ? ValidIdx() : 0); break;
+            case 2: Do(OP_RemoveFirst, 0, 0, 0, Size() ? cur[ValidIdx()] : V0()); break;
+            default: Do(OP_RemoveAll, 0, 0, 0, V0()); break;
+         } break;
+         case G_INSERTAT: switch(rng.Below(4)) {
+            case 0: case 1: Do(OP_InsertItemAt, Idx(), 0, 0, V()); break;
+            case 2: Do(OP_InsertItemAtDefault, Idx()); break;
+            default: if (Size()) Do(OP_InsertItemAtOwn, Idx(), ValidIdx()); else Do(OP_InsertItemAt, Idx(), 0, 0, V()); break;
+         } break;
+         case G_SORT: if (rng.Chance(25)) Do(OP_RemoveDup); else Do(OP_Sort, rng.Chance(70) ? 0 : Idx(), rng.Chance(70) ? NOLIMIT : Lim()); break;
+         case G_REVERSE: Do(OP_Reverse, rng.Chance(70) ? 0 : Idx(), rng.Chance(70) ? NOLIMIT : Lim()); break;
+         case G_SETSIZE: switch(rng.Below(4)) {
+            case 0: Do(OP_EnsureSizeSet, (int) rng.Below(p.cap+1)); break;
+            case 1: Do(OP_RemoveHeadMulti, 1+(int) rng.Below(3)); break;
+            case 2: Do(OP_RemoveTailMulti, 1+(int) rng.Below(3)); break;
+            default: Do(OP_EnsureSizeSetX, (int) rng.Below((uint32) Size()+2), (int) rng.Below(2), 1); break;
+         } break;
+         case G_WHOLE: switch(rng.Below(8)) {
+            case 0: case 1: Do(OP_SwapContents, 0, 0, 0, 0, src); break;
+            case 2: Do(OP_CopyFrom, 0, 0, 0, 0, src); break;
+            case 3: Do(OP_Assign, 0, 0, 0, 0, src); break;
+            case 4: Do(rng.Chance(50) ? OP_CopyCtor : OP_MoveCtor); break;
+            case 5: Do(OP_MoveAssign, 0, 0, 0, 0, src); break;
+            case 6: Do(OP_Plunder, 0, 0, 0, 0, src); break;
+            default: Do(OP_MoveAway, 0, 0, 0, 0, src); break;
+         } break;
+         default:   // calls outside the wanted groups, on a positioned ring all the same
+            if (rng.Chance(50)) Do(OP_ShrinkToFit, (int) rng.Below(2)); else Do(rng.Chance(50) ? OP_EnsureSizeX : OP_EnsureSizeSetX, (int) rng.Below((uint32) Size()+2), (int) rng.Below(2), 1);
+         break;
       }
    }
 
-   // brings the ring to capacity (cap), moves the head offset to every class in turn, with the window filled to a chosen level, then makes the target call
+   // the classes wanted (capacity, head offset, call group), taken in turn: capacities as measured on the library as compiled
+   struct Want {uint32 cap, head; int group;};
+   std::vector<Want> wants; size_t wantCursor;
+   void PlanWants()
+   {
+      for (size_t ci=0; ci<cov.caps.size(); ci++) {
+         const std::vector<uint32> heads = Coverage::HeadsOf(cov.caps[ci]);
+         for (size_t hi=0; hi<heads.size(); hi++) for (int g=0; g<G_OTHER; g++) {Want w; w.cap = cov.caps[ci]; w.head = heads[hi]; w.group = g; wants.push_back(w);}
+      }
+      for (size_t i=wants.size(); i>1; i--) std::swap(wants[i-1], wants[rng.Below((uint32) i)]);
+      wantCursor = 0;
+   }
+
+   // brings the ring to the wanted capacity (the way that capacity was measured), the window to a chosen size, moves the head offset to the wanted class
+   // by alternating adds at the tail and removes at the head, fills the window further (so that it wraps around the end of the array), then makes a call of the wanted group
    void RingEpisode()
    {
-      const uint32 caps[] = {3, 4, 8, 3, 4, 8, 5, 6}; const uint32 cap = caps[rng.Below(8)];
+      if (wants.empty()) return;
+      const Want w = wants[(wantCursor++) % wants.size()]; const uint32 cap = w.cap, s = cov.inlineCap;
       if (Pos().cap != cap) {
          Do(OP_Clear, 1);
-         if (cap == 3) Do(OP_AddTail, 0, 0, 0, V());
-         else if ((cap == 8)&&(rng.Chance(50))) {for (int i=0; i<4; i++) Do(OP_AddTail, 0, 0, 0, V());}      // 3 -> 8 by the doubling rule
-         else if (rng.Chance(50)) Do(OP_EnsureSize, (int) cap);
-         else Do(OP_EnsureSizeSet, (int) cap);
+         if (cap == s) Do(OP_AddTail, 0, 0, 0, V());
+         else if ((cov.caps.size() > 1)&&(cap == cov.caps[1])) Do(OP_EnsureSize, (int) s+1);
+         else {for (uint32 i=0; (i<=s)&&(!stop); i++) Do(OP_AddTail, 0, 0, 0, V());}
          if (Pos().cap != cap) return;
       }
-      // window size while the head is moved
-      const uint32 level = 1+rng.Below(cap-1);
-      for (int g=0; (g < 64)&&(!stop)&&((uint32) Size() > level); g++) Do(rng.Chance(50) ? OP_RemoveTail : OP_RemoveHead);
-      for (int g=0; (g < 64)&&(!stop)&&((uint32) Size() < level); g++) Do(OP_AddTail, 0, 0, 0, V());
-      const uint32 turns = rng.Below(cap+1); const bool forward = rng.Chance(60);
-      for (uint32 i=0; i<turns; i++) {
-         if (forward) {Do(OP_AddTail, 0, 0, 0, V()); Do(OP_RemoveHead);}
-                 else {Do(OP_AddHead, 0, 0, 0, V()); Do(OP_RemoveTail);}
-      }
-      // fill some more so that the window wraps around the end of the array
-      const uint32 upTo = level+rng.Below(cap-level+1);
-      for (int g=0; (g < 64)&&(!stop)&&((uint32) Size() < upTo); g++) Do(rng.Chance(70) ? OP_AddTail : OP_AddHead, 0, 0, 0, V());
-      if (Pos().cap != cap) return;
-      TargetCall();
+      const uint32 level = (cap > 1) ? (1+rng.Below(cap-1)) : 1;     // window size while the head is moved: at least one item, at least one free slot
+      for (int g=0; (g < 300)&&(!stop)&&((uint32) Size() > level); g++) Do(rng.Chance(50) ? OP_RemoveTail : OP_RemoveHead);
+      for (int g=0; (g < 300)&&(!stop)&&((uint32) Size() < level); g++) Do(OP_AddTail, 0, 0, 0, V());
+      if ((stop)||(Pos().cap != cap)||((uint32) Size() != level)) return;
+      const uint32 turns = (w.head+cap-Pos().head)%cap;
+      for (uint32 i=0; (i<turns)&&(!stop); i++) {Do(OP_AddTail, 0, 0, 0, V()); Do(OP_RemoveHead);}
+      // fill some more; Normalize is wanted on a window that wraps around the end of the array wherever the head offset allows one
+      uint32 lo = level; if ((w.group == G_NORMALIZE)&&(w.head > 0)&&(cap-w.head+1 > lo)) lo = cap-w.head+1;
+      const uint32 upTo = lo+rng.Below(cap-lo+1);
+      for (int g=0; (g < 300)&&(!stop)&&((uint32) Size() < upTo); g++) Do(OP_AddTail, 0, 0, 0, V());
+      const RingPos p = Pos(); if ((stop)||(p.cap != cap)||(p.head != w.head)||(p.size == 0)) return;
+      TargetCall(rng.Chance(8) ? (int) G_OTHER : w.group);
    }
 
    void Run(long run, long nops)
@@ -831,18 +894,23 @@ static int Directed(const char * name, const char * outFile)
    FILE * out = fopen(outFile, "w"); if (!out) return 2;
    mj::Value rec = mj::Value::Obj(); rec.set("summary", mj::Value::Bool(true)).set("case", mj::Value::Str(name));
    if (!strcmp(name, "swapstale")) {
-      // Queue<Tok> (owning, copy-only): a = [1,2,3] in its inline buffer, b = [4..8] on the heap; a.SwapContents(b); a.RemoveHeadMulti(4); a.ShrinkToFit(); a.EnsureSize(3, true)
-      // EnsureSize(n, true) is documented to add DEFAULT items: a must be [8,0,0]
-      Queue<Tok> a, b; for (int i=1; i<=3; i++) (void) a.AddTail(Tok(i)); for (int i=4; i<=8; i++) (void) b.AddTail(Tok(i));
-      a.SwapContents(b); (void) a.RemoveHeadMulti(4); (void) a.ShrinkToFit(); (void) a.EnsureSize(3, true);
+      // Queue<Tok> (owning, copy-only), S = the capacity of its inline buffer as compiled: a = S items in its inline buffer, b = S+2 items on the heap;
+      // a.SwapContents(b); a.RemoveHeadMulti(S+1); a.ShrinkToFit(); a.EnsureSize(S, true).
+      // EnsureSize(n, true) is documented to add DEFAULT items: a must be [last item of b, 0, 0, ...]  (with S = 1 there is no slot left to show anything)
+      const uint32 S = Subject<Tok>::InlineCap();
+      Queue<Tok> a, b; for (uint32 i=0; i<S; i++) (void) a.AddTail(Tok(1+(int)(i%9))); for (uint32 i=0; i<S+2; i++) (void) b.AddTail(Tok(1+(int)((i+4)%9)));
+      const bool applies = (Subject<Tok>::IsInline(a))&&(!Subject<Tok>::IsInline(b));
+      a.SwapContents(b); (void) a.RemoveHeadMulti(S+1); (void) a.ShrinkToFit(); (void) a.EnsureSize(S, true);
       IV got; for (uint32 i=0; i<a.GetNumItems(); i++) got.push_back(a[i].val());
-      IV want; want.push_back(8); want.push_back(0); want.push_back(0);
-      rec.set("reproduced", mj::Value::Bool(got != want)).set("expected", IVJson(want)).set("observed", IVJson(got));
+      IV want(S, 0); want[0] = 1+(int)((S+1+4)%9);
+      rec.set("reproduced", mj::Value::Bool(got != want)).set("expected", IVJson(want)).set("observed", IVJson(got)).set("inline_capacity", mj::Value::Int(S)).set("inline_vs_heap", mj::Value::Bool(applies));
       // the same with an item type that has move operations must be right
-      Queue<String> c, d; for (int i=1; i<=3; i++) (void) c.AddTail(IT<String>::Make(i)); for (int i=4; i<=8; i++) (void) d.AddTail(IT<String>::Make(i));
-      c.SwapContents(d); (void) c.RemoveHeadMulti(4); (void) c.ShrinkToFit(); (void) c.EnsureSize(3, true);
+      const uint32 S2 = Subject<String>::InlineCap();
+      Queue<String> c, d; for (uint32 i=0; i<S2; i++) (void) c.AddTail(IT<String>::Make(1+(int)(i%9))); for (uint32 i=0; i<S2+2; i++) (void) d.AddTail(IT<String>::Make(1+(int)((i+4)%9)));
+      c.SwapContents(d); (void) c.RemoveHeadMulti(S2+1); (void) c.ShrinkToFit(); (void) c.EnsureSize(S2, true);
       IV got2; for (uint32 i=0; i<c.GetNumItems(); i++) got2.push_back(IT<String>::Val(c[i]));
-      rec.set("movable_type_ok", mj::Value::Bool(got2 == want));
+      IV want2(S2, 0); want2[0] = 1+(int)((S2+1+4)%9);
+      rec.set("movable_type_ok", mj::Value::Bool(got2 == want2));
    }
    else if (!strcmp(name, "shrinkoverflow")) {
       // Queue<int> [1..8] (8 slots); EnsureSize(5, false, 0, allowShrink = true): "makes sure there is enough space allocated for at least (numSlots) items";
